@@ -9,6 +9,9 @@ IDENTITY_CALLS = (
 )
 
 
+COLLECTION_INSERT = ("Vec::push", "VecDeque::push_back", "VecDeque::push_front", "Vec::insert", "Vec::extend", "Extend::extend", "Vec::append")
+
+
 def callee_in(callee, names):
     """callee key equals one of names or ends with ::<name>"""
     if not callee:
@@ -44,10 +47,35 @@ def proj_canon(pr):
 class Flow:
     """Def-use helpers for one Body."""
 
-    def __init__(self, body):
+    def __init__(self, body, through_named=False):
         self.b = body
         self.defs = body.defs()
         self._canon = {}
+        self.through_named = through_named
+        # single-definition tuple aggregates: T -> [operand local or None]; lets `x = T.i` flow from the i-th operand only
+        self.tuples = {}
+        for l, ds in self.defs.items():
+            if len(ds) == 1 and ds[0][1] != "term":
+                rv = ds[0][2]["rv"]
+                if rv["k"] == "agg" and rv.get("kind") == "tuple":
+                    self.tuples[l] = [(op_place(o) or {}).get("l") if not (op_place(o) or {}).get("pr") else None for o in rv["ops"]]
+
+    def src_locals(self, rv):
+        """source locals of an rvalue, field-sensitive for projections of locally built tuples"""
+        k = rv["k"]
+        p = None
+        if k in ("use", "cast", "repeat"):
+            p = op_place(rv["op"])
+        elif k in ("ref", "rawptr", "discr"):
+            p = rv["p"]
+        if p is not None and p["l"] in self.tuples:
+            fs = [e for e in p["pr"] if e[0] != "*"]
+            if fs and fs[0][0] == "f":
+                idx = fs[0][4] if len(fs[0]) > 4 else None
+                ops = self.tuples[p["l"]]
+                if idx is not None and idx < len(ops) and ops[idx] is not None:
+                    return [ops[idx]]
+        return rv_source_locals(rv)
 
     # -------------------------------------------------------------- canonical places
     def canon_local(self, l, depth=0):
@@ -55,7 +83,7 @@ class Flow:
         if l in self._canon:
             return self._canon[l]
         res = (l, ())
-        if depth < 12 and l > self.b.mir["argc"] and not self.b.local_name(l):
+        if depth < 12 and l > self.b.mir["argc"] and (self.through_named or not self.b.local_name(l)):
             ds = self.defs.get(l, [])
             if len(ds) == 1:
                 _bi, si, d = ds[0]
@@ -132,12 +160,18 @@ class Flow:
                     continue
                 dst = s["p"]["l"]
                 rv = s["rv"]
-                srcs = rv_source_locals(rv)
+                srcs = self.src_locals(rv)
                 if dst not in seen and any(x in seen for x in srcs):
                     seen.add(dst)
                     changed = True
             for bi, t in self.b.calls():
                 dst = t["dest"]["l"]
+                if call_matches(t, COLLECTION_INSERT) and len(t["args"]) >= 2:
+                    if any((op_place(a) or {}).get("l") in seen for a in t["args"][1:]):
+                        c = self.canon_op(t["args"][0])
+                        if c is not None and c[0] not in seen:
+                            seen.add(c[0])
+                            changed = True
                 if dst in seen:
                     continue
                 if call_matches(t, through):
@@ -155,6 +189,15 @@ class Flow:
         while changed and it < max_iter:
             changed = False
             it += 1
+            for _bi, t in self.b.calls():
+                if call_matches(t, COLLECTION_INSERT) and len(t["args"]) >= 2:
+                    c = self.canon_op(t["args"][0])
+                    if c is not None and c[0] in seen:
+                        for a in t["args"][1:]:
+                            p = op_place(a)
+                            if p and p["l"] not in seen:
+                                seen.add(p["l"])
+                                changed = True
             for l in list(seen):
                 for _bi, si, d in self.defs.get(l, []):
                     if si == "term":
@@ -165,13 +208,53 @@ class Flow:
                                     seen.add(p["l"])
                                     changed = True
                     else:
-                        for x in rv_source_locals(d["rv"]):
+                        for x in self.src_locals(d["rv"]):
                             if x not in seen:
                                 seen.add(x)
                                 changed = True
         return seen
 
-    def sources(self, l, through_calls=None):
+    def slice_reads(self, l, through_calls=None):
+        """(fields, downcasts, consts, callees) read anywhere in the backward slice of local l:
+        fields = {(owner adt, field)}, downcasts = {variant}, consts = [const operands], callees = {callee key of non-through calls}."""
+        through = tuple(IDENTITY_CALLS) + tuple(through_calls or ())
+        locs = self.backward({l}, through_calls=through_calls)
+        fields, downs, consts, callees = set(), set(), [], set()
+
+        def place(p):
+            for e in p["pr"]:
+                if e[0] == "f":
+                    fields.add((e[2], e[1]))
+                elif e[0] == "d":
+                    downs.add(e[1])
+
+        def operand(o):
+            if not o:
+                return
+            if o.get("c") == "const":
+                consts.append(o)
+            elif o.get("p"):
+                place(o["p"])
+        for x in locs:
+            for _bi, si, d in self.defs.get(x, []):
+                if si == "term":
+                    if not call_matches(d, through):
+                        callees.add(d.get("callee") or "indirect")
+                    else:
+                        for a in d["args"]:
+                            operand(a)
+                else:
+                    rv = d["rv"]
+                    if rv["k"] in ("ref", "rawptr", "discr"):
+                        place(rv["p"])
+                    for key in ("op", "l", "r", "x"):
+                        if isinstance(rv.get(key), dict):
+                            operand(rv[key])
+                    for o in rv.get("ops", []) or []:
+                        operand(o)
+        return fields, downs, consts, callees
+
+    def sources(self, l, through_calls=None, stop_at_agg=False):
         """Terminal definitions reached by the backward slice of local l:
         list of ('arg', local) | ('call', block, term) | ('const', op) | ('rv', block, stmt)"""
         through = tuple(IDENTITY_CALLS) + tuple(through_calls or ())
@@ -202,9 +285,11 @@ class Flow:
                         out.append(("call", bi, d))
                 else:
                     rv = d["rv"]
-                    srcs = rv_source_locals(rv)
+                    srcs = self.src_locals(rv)
                     consts = rv_const_ops(rv)
-                    if rv["k"] in ("use", "ref", "cast", "agg", "rawptr", "repeat"):
+                    if stop_at_agg and rv["k"] == "agg":
+                        out.append(("rv", bi, d))
+                    elif rv["k"] in ("use", "ref", "cast", "agg", "rawptr", "repeat"):
                         work.extend(srcs)
                         for c in consts:
                             out.append(("const", c))
@@ -285,7 +370,7 @@ def diverging_blocks(body):
 
 
 # ---------------------------------------------------------------------- exploration with constant threading
-def explore(body, starts, avoid=(), stop=(), env=None, exempt_edges=(), want="return", targets=(), limit=200000):
+def explore(body, starts, avoid=(), stop=(), env=None, exempt_edges=(), want="return", targets=(), limit=200000, force=None):
     """Depth-first search over (block, known-constant locals).
 
     starts        : iterable of blocks entered at their top (or (block, env) pairs)
@@ -348,7 +433,7 @@ def explore(body, starts, avoid=(), stop=(), env=None, exempt_edges=(), want="re
         if blk.get("cleanup"):
             continue
         e = dict(fenv)
-        for s in blk["stmts"]:
+        for si_, s in enumerate(blk["stmts"]):
             if s["k"] != "assign":
                 continue
             if s["p"]["pr"]:
@@ -356,6 +441,10 @@ def explore(body, starts, avoid=(), stop=(), env=None, exempt_edges=(), want="re
             l = s["p"]["l"]
             rv = s["rv"]
             val = None
+            if force and (bi, si_) in force:
+                e[l] = force[(bi, si_)]
+                interesting.add(l)
+                continue
             if rv["k"] == "use":
                 o = rv["op"]
                 if o.get("c") == "const" and "val" in o:
@@ -384,6 +473,8 @@ def explore(body, starts, avoid=(), stop=(), env=None, exempt_edges=(), want="re
         succs = body.succ[bi]
         if k == "switch":
             l = op_local(t["op"])
+            if force and l in force:
+                e[l] = force[l]
             if l is not None and l in e:
                 v = e[l]
                 tgt = None
@@ -462,4 +553,67 @@ def consumer_calls(body, flow, local):
             p = op_place(a)
             if p and p["l"] in fw:
                 out.append((bi, t, ai))
+    return out
+
+
+def discr_switches(body, local):
+    """Switch blocks on the discriminant of `local` (any projection rooted at it is ignored: only the bare local).
+    Returns [(block, {value: target}, otherwise)]."""
+    dl = set()
+    for _bi, _si, s in body.stmts():
+        if s["k"] == "assign" and s["rv"]["k"] == "discr" and s["rv"]["p"]["l"] == local and not [e for e in s["rv"]["p"]["pr"] if e[0] != "*"]:
+            dl.add(s["p"]["l"])
+    out = []
+    for bi, b in enumerate(body.blocks):
+        t = b["term"]
+        if t["k"] == "switch" and op_local(t["op"]) in dl:
+            out.append((bi, {v: bb for v, bb in t["targets"]}, t["otherwise"]))
+    return out
+
+
+def edges_except(body, sw, keep_value):
+    """All out-edges of switch (block, map, otherwise) except the one taken for `keep_value`."""
+    bi, m, other = sw
+    keep = m.get(keep_value, other)
+    return [(bi, bb) for _v, bb in body.switch_edges(bi) if bb != keep]
+
+
+def edge_for(body, sw, value):
+    bi, m, other = sw
+    return (bi, m.get(value, other))
+
+
+def option_none_edges(body, locals_):
+    """Edges taken when an Option-typed place rooted at one of `locals_` is None (every edge of a switch on its discriminant except Some)."""
+    dl = {}
+    for _bi, _si, s in body.stmts():
+        if s["k"] == "assign" and s["rv"]["k"] == "discr" and s["rv"]["p"]["l"] in locals_ and (s["rv"].get("adt") or "").endswith("option::Option"):
+            dl[s["p"]["l"]] = True
+    out = []
+    for bi, b in enumerate(body.blocks):
+        t = b["term"]
+        if t["k"] == "switch" and op_local(t["op"]) in dl:
+            some = [bb for v, bb in t["targets"] if v == 1]
+            for _v, bb in body.switch_edges(bi):
+                if bb not in some:
+                    out.append((bi, bb))
+    return out
+
+
+def lookup_fail_edges(body, flow, dest_local):
+    """Edges taken when the lookup whose result is `dest_local` found nothing: None edges of the Option, and the Break edge of a
+    `?` applied (through ok_or / ok_or_else) directly to it."""
+    grp = flow.forward({dest_local}, through_calls=("Option::ok_or", "Option::ok_or_else", "Try::branch", "Option::as_mut", "Option::as_ref"))
+    out = option_none_edges(body, grp)
+    dl = set()
+    for _bi, _si, s in body.stmts():
+        if s["k"] == "assign" and s["rv"]["k"] == "discr" and s["rv"]["p"]["l"] in grp and (s["rv"].get("adt") or "").endswith("ControlFlow"):
+            dl.add(s["p"]["l"])
+    for bi, b in enumerate(body.blocks):
+        t = b["term"]
+        if t["k"] == "switch" and op_local(t["op"]) in dl:
+            cont = [bb for v, bb in t["targets"] if v == 0]
+            for _v, bb in body.switch_edges(bi):
+                if bb not in cont:
+                    out.append((bi, bb))
     return out
